@@ -245,7 +245,7 @@ func zzH_C19_blocks_from_id_handler(t *zzT) {
 // C19.b: GetHighestCommonBlock returns the known ID of maximal height among the offered IDs (nil when
 // none is known) and bans on malformed requests.
 //
-//zz:opt loop=200 lockdiscipline=off sched=1
+//zz:opt loop=200 lockdiscipline=off sched=1 require=invalid,end
 //zz:stub (*~/pkg/p2p.Connection).BanPeer zzsStubBanPeer
 //zz:quick N=3
 //zz:thorough N=4
@@ -254,23 +254,57 @@ func zzH_C19_highest_common_block_handler(t *zzT) {
 	s, blocks := zzsNode(t, n)
 	w := &zzsWriter{}
 	h := s.HandleRPCEndpointGetHighestCommonBlock()
-	cnt := t.Range("ids", 1, 2)
+	cnt := t.Range("ids", 0, 2)
 	var ids [][]byte
 	best := -1
+	malformed := cnt == 0 // an empty ID list is an invalid request
 	for i := 0; i < cnt; i++ {
-		k := t.Range(t.Name("id", i), 0, n+1) // n = unknown ID, n+1 = ID of a reverted block (unknown as well)
-		if k == n {
+		// n = unknown ID, n+1 = ID of a reverted block (unknown as well), n+2.. = malformed IDs (31, 33, 0 bytes)
+		k := t.Range(t.Name("id", i), 0, n+4)
+		switch {
+		case k == n:
 			ids = append(ids, cbytes.Repeat([]byte{byte(7 + i)}, 32))
-		} else if k == n+1 {
+		case k == n+1:
 			ids = append(ids, zzsReverted.Header.ID)
-		} else {
+		case k == n+2:
+			ids = append(ids, cbytes.Repeat([]byte{3}, 31))
+			malformed = true
+		case k == n+3:
+			ids = append(ids, cbytes.Repeat([]byte{3}, 33))
+			malformed = true
+		case k == n+4:
+			ids = append(ids, []byte{})
+			malformed = true
+		default:
 			ids = append(ids, blocks[k].Header.ID)
 			if k > best {
 				best = k
 			}
 		}
 	}
-	h(w, &p2p.Request{Data: (&GetHighestCommonBlockRequest{IDs: ids}).Encode()})
+	req := &p2p.Request{Data: (&GetHighestCommonBlockRequest{IDs: ids}).Encode()}
+	if malformed {
+		// invalid sync request (C18): whatever else the list contains - the node's own tip ID first, known IDs,
+		// unknown IDs - the sender is penalised and nothing is answered
+		if !t.Symbolic() {
+			// BanPeer needs a live host natively; with a nil connection an attempted ban panics inside BanPeer
+			s.conn = nil
+			func() {
+				defer func() {
+					if r := recover(); r != nil {
+						zzsBanned++
+					}
+				}()
+				h(w, req)
+			}()
+		} else {
+			h(w, req)
+		}
+		t.Assert(zzsBanned == 1 && w.calls == 0, "invalid request (an ID that is not 32 bytes long, or no ID): the sender is banned and nothing is answered")
+		t.Reach("invalid")
+		return
+	}
+	h(w, req)
 	t.Assert(zzsBanned == 0 && w.calls == 1 && w.errs == 0, "well-formed request: answered once, nobody banned")
 	if len(w.data) == 1 {
 		if best < 0 {
@@ -282,3 +316,20 @@ func zzH_C19_highest_common_block_handler(t *zzT) {
 	}
 	t.Reach("end")
 }
+
+// C18 "invalid sync requests lead to these penalties": the same handler scenarios registered under C18
+// (seed C18-5 answered a request whose FIRST ID is the node's tip before validating the other IDs).
+//
+//zz:opt loop=200 lockdiscipline=off sched=1 require=invalid
+//zz:stub (*~/pkg/p2p.Connection).BanPeer zzsStubBanPeer
+//zz:quick N=3
+//zz:thorough N=4
+func zzH_C18_sync_invalid_request_ban(t *zzT) { zzH_C19_highest_common_block_handler(t) }
+
+// C18 / C19.b: the same for GetBlocksFromID (arbitrary request bytes).
+//
+//zz:opt loop=200 lockdiscipline=off
+//zz:stub (*~/pkg/p2p.Connection).BanPeer zzsStubBanPeer
+//zz:quick N=4 B=3
+//zz:thorough N=6 B=5
+func zzH_C18_sync_blocks_request_ban(t *zzT) { zzH_C19_blocks_from_id_handler(t) }
